@@ -39,15 +39,22 @@ Inductive token :=
 | TLit (w : litform) | TName (s : string) | TOp (o : optok)
 | TLP | TRP | TComma | TColon | TPct | TAssign | TBad.
 
-(* the three parenthesisation decisions in which the unchanged writer and the repaired writer
-   differ (all false = fortran.py as it is in the snapshot; all true = props/C02/fix.patch) *)
+(* the parenthesisation decisions in which the unchanged writer and the repaired writers differ
+   (all false = fortran.py as it is in the snapshot) *)
 Record rules := mkRules {
   r_pow_left : bool;   (* a '**' left operand of '**' is bracketed *)
   r_rel_left : bool;   (* a relational left operand of a relational operator is bracketed *)
-  r_un_left  : bool    (* a unary left operand of a higher-precedence binary operator is bracketed *)
+  r_un_left  : bool;   (* a unary left operand of a higher-precedence binary operator is bracketed *)
+  r_deep     : bool;   (* the "sign would follow a binary operator" rule looks up the whole
+                          unbracketed left spine instead of one level *)
+  r_plus     : bool    (* ... and applies to unary '+' as well as to unary '-' *)
 }.
-Definition rules_orig := mkRules false false false.
-Definition rules_fixed := mkRules true true true.
+Definition rules_orig := mkRules false false false false false.
+(* props/C02/fix.patch: everything except r_un_left, which PSyclone's own test
+   test_fw_mixed_operator_precedence forbids ('(-a) * (-b + c)' must be written '-a * (-b + c)') *)
+Definition rules_patch := mkRules true true false true true.
+(* the complete repair *)
+Definition rules_fixed := mkRules true true true true true.
 
 (* ---- decidable equalities (structural; PSyIR Node.__eq__ is structural) ---- *)
 Definition unop_eqb (a b : unop) : bool :=
